@@ -155,6 +155,10 @@ pub struct Out {
     w: std::io::BufWriter<std::fs::File>,
 }
 impl Out {
+    /// a writer that discards everything
+    pub fn sink() -> Out {
+        Out { w: std::io::BufWriter::new(std::fs::File::create("/dev/null").expect("sink")) }
+    }
     /// an input record (`C`, `H`, `O` ...) as the model driver will read it
     pub fn rec(&mut self, line: &str) {
         writeln!(self.w, "{}", line).unwrap();
